@@ -167,7 +167,7 @@ def _c11(seed, quick):
 def _c12(seed, quick):
     m, mb = (25, 40) if quick else (500, 400)
     plan = {
-        "shards": comp_shards("C12", seed, "c12-directed", 1, 120, shards=1) + comp_shards("C12", seed, "c12-stress", 1500 if quick else 60000, mb, shards=5) + conc_shards("C12", seed, "mixed", m, mb, shards=6) + conc_shards("C12", seed, "shutdown", 800 if quick else 40000, mb, shards=4),
+        "shards": comp_shards("C12", seed, "c12-directed", 1, 120, shards=1) + comp_shards("C12", seed, "c12-stress", 1500 if quick else 60000, mb, shards=4) + comp_shards("C12", seed, "c12-busy", 300000 if quick else 20000000, mb, shards=3) + conc_shards("C12", seed, "mixed", m, mb, shards=6) + conc_shards("C12", seed, "shutdown", 800 if quick else 40000, mb, shards=4),
         "rule": "Directed: all placements of 1-3 sequential polls (same or fresh waker) into the four gaps of done() {before, between its two stores, before the wake, "
                 "after return} x 3 final statuses, the completer held by gates at the lock-free schedule points: 312 cases, exhaustive at that granularity. Stress: "
                 "an executor-like poller (waits for its own waker, spurious re-polls, waker changes; sometimes two tasks on one handle) vs done() with seeded delays "
@@ -295,7 +295,8 @@ def _c16_extra(seed, quick):
 
 
 def _c17_extra(seed, quick):
-    return conc_shards("C17", seed, "mixed", 20 if quick else 400, 40 if quick else 400, shards=4)
+    # the stress workload of C18 as well: a wedged worker or sweeper no longer "keeps completing writes"
+    return conc_shards("C17", seed, "mixed", 20 if quick else 400, 40 if quick else 400, shards=4) + conc_shards("C17", seed, "stress", 3 if quick else 60, 60 if quick else 500, shards=4, extra=["--ops", "2500" if quick else "20000"])
 
 
 SEQ_ONLY = {
